@@ -220,7 +220,16 @@ func (a *vATP) Encoder() *cbor.Encoder { return nil }
 func (a *vATP) Decoder() *cbor.Decoder { return nil }
 
 // schema validation stubs (redirect targets)
-func verifScopeUnserialize(s *schema.ScopeSchema, data any) (any, error)       { return data, nil }
+// VerifScopeHook lets the run-loop harness (package workflow) answer the one ScopeSchema.Unserialize call
+// of Prepare (the workflow's input scope, made on the nil scope that the stubbed DescribeScope returns).
+var VerifScopeHook func(data any) (any, error)
+
+func verifScopeUnserialize(s *schema.ScopeSchema, data any) (any, error) {
+	if s == nil && VerifScopeHook != nil {
+		return VerifScopeHook(data)
+	}
+	return data, nil
+}
 func verifPropertyUnserialize(p *schema.PropertySchema, data any) (any, error) { return data, nil }
 
 // ---------------------------------------------------------------------------
